@@ -248,7 +248,29 @@ class Prover:
             # quantifier / sequence reasoning: z3 either answers quickly or not at all; ask it
             # briefly, then cvc5, and only then z3 again with the full budget
             s.set("timeout", 3000)
-            r = guarded(s, 3000)
+
+            def job1():
+                rr = s.check()
+                md = None
+                if rr == z3.sat and want_model:
+                    m = s.model()
+                    md = _model_to_dict(m)
+                    if eval_terms:
+                        for k, t in eval_terms.items():
+                            try:
+                                md["@" + k] = str(m.eval(t, model_completion=True))
+                            except Exception:
+                                pass
+                return [str(rr), md]
+            # also the brief attempt runs in a forked child (same reason as the full-budget one below: the hang was seen with
+            # either budget); a child that overruns its hard limit counts as 'unknown'
+            ok1, val1 = forked(job1, 3.0 + 4)
+            if ok1 and val1[0] == "unsat":
+                self.stats["z3"] += 1
+                return "proved", "z3", time.time() - t0, None, None
+            if ok1 and val1[0] == "sat":
+                return "refuted", "z3", time.time() - t0, val1[1], None
+            r = z3.unknown
             if r == z3.unknown and use_cli:
                 st_cli, be = self._cli(s)
                 dt = time.time() - t0
